@@ -12,6 +12,10 @@ args = [a for a in args if a != "--skip-verify"]
 checks = args or [prop]
 wt = "/tmp/wt-" + name
 seed = os.path.join(wt, "_seed")
+if not os.path.isdir(seed):
+    # the scratch worktree is gone: re-run the kept patch
+    seed = "/verif/seeded/" + name
+    skip = True
 env = dict(os.environ, CARGO_NET_OFFLINE="true", CARGO_TARGET_DIR=wt + "/target")
 meta = dict(id=name, property=prop, confirmed={}, checks={})
 def sh(cmd, **kw):
@@ -54,7 +58,7 @@ finally:
 dst = "/verif/seeded/%s" % name
 os.makedirs(dst, exist_ok=True)
 for f in ("patch.diff", "demo.sh", "demo.out", "README.md"):
-    if os.path.exists(os.path.join(seed, f)):
+    if os.path.exists(os.path.join(seed, f)) and os.path.abspath(seed) != os.path.abspath(dst):
         shutil.copy(os.path.join(seed, f), dst)
 mp = os.path.join(dst, "meta.json")
 old = json.load(open(mp)) if os.path.exists(mp) else {}
